@@ -13,6 +13,8 @@ HEAP_SCHEMA = {
     "resourcename": ("obj", "store"),
     "put_time": ("num", "real"),
     "filter": ("obj", "filter"),
+    "fleet_entry_time": ("num", "real"),
+    "fleet_exit_time": ("num", "real"),
     "length": ("num", "real"),
     "conveyor_entry_time": ("num", "real"),
     "conveyor_ready_item_entry_time": ("num", "real"),
